@@ -3,8 +3,10 @@
 mod calls;
 mod common;
 mod dump;
+mod extra;
 mod gen;
 mod matrix;
+mod packed;
 mod stream;
 
 use std::collections::HashMap;
@@ -85,6 +87,32 @@ fn main() {
                 get("sizes", "1,2,3").split(',').map(|x| x.parse().unwrap()).collect();
             let st = stream::run(&out, shards, &fam, seed, scale, faults, maxstream, &sizes);
             println!("{{\"contexts\":{},\"events\":{}}}", st.contexts, st.events);
+        }
+        "packed" => {
+            let scale: usize = get("scale", "1").parse().unwrap();
+            let st = packed::run(&out, shards, seed, scale);
+            println!("{{\"contexts\":{},\"events\":{}}}", st.contexts, st.events);
+        }
+        "guard" => {
+            let scale: usize = get("scale", "1").parse().unwrap();
+            let poke = get("poke", "false") == "true";
+            let n = extra::run_guard(&out, shards, seed, scale, poke);
+            println!("{{\"events\":{}}}", n);
+        }
+        "threads" => {
+            let scale: usize = get("scale", "1").parse().unwrap();
+            let (c, e) = extra::run_threads(&out, shards, seed, scale);
+            println!("{{\"contexts\":{},\"events\":{}}}", c, e);
+        }
+        "build" => {
+            let scale: usize = get("scale", "1").parse().unwrap();
+            let n = extra::run_build(&out, shards, seed, scale);
+            println!("{{\"events\":{}}}", n);
+        }
+        "ids" => {
+            let scale: usize = get("scale", "1").parse().unwrap();
+            let (c, e) = extra::run_ids(&out, shards, seed, scale);
+            println!("{{\"contexts\":{},\"events\":{}}}", c, e);
         }
         "matrix" => {
             let n = matrix::run(&out);
